@@ -1754,26 +1754,51 @@ theorem signed_base_pow_paren_wrong (n e : String) :
 
 /-! ### Modules: an unqualified identifier in model M denotes M's variable -/
 
-theorem isQual_resolved (m s : String) (hm : m ≠ "") : isQual (resolveName m s) = true := by
+theorem isQual_resolved (m s : String) (hm : m ≠ "") (hr : isRootRef s = false) : isQual (resolveName m s) = true := by
   unfold resolveName
   by_cases h : isQual s = true
-  · simp [h]
+  · simp [h, hr]
   · have h' : ¬ ('.' ∈ s.toList) := by simpa [isQual] using h
-    simp [isQual, h', hm]
+    simp [isQual, h', hm, hr]
+
+theorem isRootRef_resolved (m s : String) (hm : m ≠ "") (hm' : isRootRef m = false) (hr : isRootRef s = false) :
+    isRootRef (resolveName m s) = false := by
+  unfold resolveName
+  by_cases h : isQual s = true
+  · simp [h, hr]
+  · simp only [hr, h, hm, Bool.false_eq_true, if_false, Bool.or_false]
+    have hne : m.toList ≠ [] := by
+      intro h0
+      apply hm
+      have : m = String.ofList m.toList := by simp
+      rw [this, h0]
+    cases hml : m.toList with
+    | nil => exact absurd hml hne
+    | cons c cs =>
+      simp only [isRootRef, hml, List.head?] at hm'
+      simp [isRootRef, String.toList_append, hml, hm']
 
 theorem xlvl_makeAbs (P : XPrec) (m : String) (x : X) : xlvl P (makeAbs m x) = xlvl P x := by
   cases x <;> simp [makeAbs, xlvl]
 
-/-- the reference generated for an identifier of an equation in model `m`: qualified names as written, unqualified ones as
-`self.memoize('<m>.<name>', t)` — the variable of THAT model (root: the bare name) -/
+/-- the reference generated for an identifier of an equation in model `m`: a leading-period name is the ROOT model's
+variable whatever `m` is; other qualified names as written; unqualified ones `self.memoize('<m>.<name>', t)` — the variable of
+THAT model (root: the bare name) -/
 theorem gen_makeAbs_id (c : Cfg) (m s : String) (init : Bool) :
     gen c init (makeAbs m (.id s)) = idToks (resolveName m s) init ∧
-    (isQual s = false → m ≠ "" → resolveName m s = m ++ "." ++ s) ∧ (isQual s = true → resolveName m s = s) ∧
-    resolveName "" s = s := by
-  refine ⟨by simp [makeAbs, gen], ?_, ?_, ?_⟩
-  · intro h hm; simp [resolveName, h, hm]
+    (isRootRef s = true → resolveName m s = String.ofList (s.toList.drop 1)) ∧
+    (isRootRef s = false → isQual s = false → m ≠ "" → resolveName m s = m ++ "." ++ s) ∧
+    (isRootRef s = false → isQual s = true → resolveName m s = s) ∧
+    (isRootRef s = false → resolveName "" s = s) := by
+  refine ⟨by simp [makeAbs, gen], ?_, ?_, ?_, ?_⟩
   · intro h; simp [resolveName, h]
-  · simp [resolveName]
+  · intro hr h hm; simp [resolveName, hr, h, hm]
+  · intro hr h; simp [resolveName, hr, h]
+  · intro hr; simp [resolveName, hr]
+
+/-- no identifier of the tree is a root reference (`.name`) -/
+def noRootRef (x : X) : Bool := (ids x).all (fun s => !isRootRef s)
+def noRootRefL (xs : List X) : Bool := (idsL xs).all (fun s => !isRootRef s)
 
 mutual
 /-- resolution touches the identifiers only, each one by `resolveName`, in place -/
@@ -1811,29 +1836,51 @@ theorem xwll_makeAbsL (P : XPrec) (m : String) (xs : List X) : XWLL P (makeAbsL 
 end
 
 mutual
-/-- the first prefix wins: a tree that a named model has absolutised is not changed by any later resolution -/
-theorem makeAbs_first_wins (m1 m2 : String) (h1 : m1 ≠ "") (x : X) : makeAbs m2 (makeAbs m1 x) = makeAbs m1 x := by
-  match x with
-  | .num _ | .nnum _ | .nothing => simp [makeAbs]
-  | .id s =>
-    have hq := isQual_resolved m1 s h1
+/-- the first prefix wins: a tree (without root references) that a named model has absolutised is not changed by any later
+resolution -/
+theorem makeAbs_first_wins (m1 m2 : String) (h1 : m1 ≠ "") (h1' : isRootRef m1 = false) (x : X) (hr : noRootRef x = true) :
+    makeAbs m2 (makeAbs m1 x) = makeAbs m1 x := by
+  match x, hr with
+  | .num _, _ | .nnum _, _ | .nothing, _ => simp [makeAbs]
+  | .id s, hr =>
+    have hs : isRootRef s = false := by simpa [noRootRef, ids] using hr
+    have hq := isQual_resolved m1 s h1 hs
+    have hn := isRootRef_resolved m1 s h1 h1' hs
     have e : resolveName m2 (resolveName m1 s) = resolveName m1 s := by
-      generalize resolveName m1 s = r at hq
-      simp [resolveName, hq]
+      generalize resolveName m1 s = r at hq hn
+      simp [resolveName, hq, hn]
     simp [makeAbs, e]
-  | .paren e => simp [makeAbs, makeAbs_first_wins m1 m2 h1 e]
-  | .neg e => simp [makeAbs, makeAbs_first_wins m1 m2 h1 e]
-  | .notp e => simp [makeAbs, makeAbs_first_wins m1 m2 h1 e]
-  | .bin k l r => simp [makeAbs, makeAbs_first_wins m1 m2 h1 l, makeAbs_first_wins m1 m2 h1 r]
-  | .ite cnd a b =>
-    simp [makeAbs, makeAbs_first_wins m1 m2 h1 cnd, makeAbs_first_wins m1 m2 h1 a, makeAbs_first_wins m1 m2 h1 b]
-  | .call f args => simp [makeAbs, makeAbsL_first_wins m1 m2 h1 args]
-theorem makeAbsL_first_wins (m1 m2 : String) (h1 : m1 ≠ "") (xs : List X) :
-    makeAbsL m2 (makeAbsL m1 xs) = makeAbsL m1 xs := by
-  match xs with
-  | [] => simp [makeAbsL]
-  | e :: es => simp [makeAbsL, makeAbs_first_wins m1 m2 h1 e, makeAbsL_first_wins m1 m2 h1 es]
+  | .paren e, hr => simp [makeAbs, makeAbs_first_wins m1 m2 h1 h1' e (by simpa [noRootRef, ids] using hr)]
+  | .neg e, hr => simp [makeAbs, makeAbs_first_wins m1 m2 h1 h1' e (by simpa [noRootRef, ids] using hr)]
+  | .notp e, hr => simp [makeAbs, makeAbs_first_wins m1 m2 h1 h1' e (by simpa [noRootRef, ids] using hr)]
+  | .bin k l r, hr =>
+    have h : noRootRef l = true ∧ noRootRef r = true := by
+      simpa [noRootRef, ids, List.all_append] using hr
+    simp [makeAbs, makeAbs_first_wins m1 m2 h1 h1' l h.1, makeAbs_first_wins m1 m2 h1 h1' r h.2]
+  | .ite cnd a b, hr =>
+    have h : noRootRef cnd = true ∧ noRootRef a = true ∧ noRootRef b = true := by
+      simpa [noRootRef, ids, List.all_append] using hr
+    simp [makeAbs, makeAbs_first_wins m1 m2 h1 h1' cnd h.1, makeAbs_first_wins m1 m2 h1 h1' a h.2.1,
+      makeAbs_first_wins m1 m2 h1 h1' b h.2.2]
+  | .call f args, hr =>
+    simp [makeAbs, makeAbsL_first_wins m1 m2 h1 h1' args (by simpa [noRootRef, noRootRefL, ids] using hr)]
+theorem makeAbsL_first_wins (m1 m2 : String) (h1 : m1 ≠ "") (h1' : isRootRef m1 = false) (xs : List X)
+    (hr : noRootRefL xs = true) : makeAbsL m2 (makeAbsL m1 xs) = makeAbsL m1 xs := by
+  match xs, hr with
+  | [], _ => simp [makeAbsL]
+  | e :: es, hr =>
+    have h : noRootRef e = true ∧ noRootRefL es = true := by
+      simpa [noRootRef, noRootRefL, idsL, List.all_append] using hr
+    simp [makeAbsL, makeAbs_first_wins m1 m2 h1 h1' e h.1, makeAbsL_first_wins m1 m2 h1 h1' es h.2]
 end
+
+/-- **a leading period addresses the root model**, in every model: `.rate` in an equation of module `plantA` is the root's
+`rate`, not `plantA.rate` (the behaviour before `fix: a name with a leading period …`) -/
+theorem root_ref_witness :
+    resolveName "plantA" ".rate" = "rate" ∧ resolveName "" ".rate" = "rate" ∧ resolveName "plantA" "rate" = "plantA.rate" ∧
+    resolveName "plantA" "unitTwo.rate" = "unitTwo.rate" ∧
+    ids (makeAbs "plantA" (.bin .add (.id ".rate") (.id "rate"))) = ["rate", "plantA.rate"] := by
+  decide +kernel
 
 theorem absAll_untouched (es : List Eqn) (st : Nat → Option X) (i : Nat) (h : ∀ e ∈ es, e.cell ≠ i) :
     es.foldl absStep st i = st i := by
@@ -1886,6 +1933,7 @@ theorem shared_tree_witness :
 #print axioms owned_resolution
 #print axioms makeAbs_first_wins
 #print axioms shared_tree_witness
+#print axioms root_ref_witness
 
 /-! ### Per program: what a successful validation means -/
 
